@@ -8,7 +8,8 @@ def sh(cmd, cwd=None, env=None):
     p = subprocess.run(cmd, cwd=cwd, env=env, shell=True, stdout=subprocess.PIPE, stderr=subprocess.STDOUT)
     return p.returncode, p.stdout.decode('utf-8', 'replace')
 
-def one(patch):
+def one(patch, scan=False):
+    emit, kern, bridge = (('emit_scan_v', 'ScanKernels.v', 'BridgeScan.v') if scan else ('emit_req_v', 'ReqKernels.v', 'BridgeReq.v'))
     wt = tempfile.mkdtemp(prefix='ubx-tb-', dir='/tmp'); os.rmdir(wt)
     gen = tempfile.mkdtemp(prefix='ubx-tbg-', dir='/tmp')
     try:
@@ -17,21 +18,25 @@ def one(patch):
         rc, o = sh(f'git apply {patch}', cwd=wt)
         if rc: return 'patch-does-not-apply'
         env = dict(os.environ, PYTHONPATH=f'{wt}:{VERIF}/py', PYTHONDONTWRITEBYTECODE='1')
-        code = ("from vlib import translate_req, translate\n"
-                "try:\n translate_req.emit_req_v(%r)\n print('OK')\n"
+        target = os.path.join(gen, kern)
+        code = ("from vlib import translate_req, translate, backends\n"
+                "backends.install_stub_serial()\n"
+                "try:\n translate_req." + emit + "(" + repr(target) + ")\n print('OK')\n"
                 "except translate.TranslateError as e:\n print('REJECT', e)\n"
-                "except Exception as e:\n print('REJECT', repr(e))\n" % os.path.join(gen, 'ReqKernels.v'))
-        rc, o = sh(f'/venv/bin/python -c "{code}"', cwd=gen, env=env)
+                "except Exception as e:\n print('REJECT', repr(e))\n")
+        with open(os.path.join(gen, 'run.py'), 'w') as fh:
+            fh.write(code)
+        rc, o = sh('/venv/bin/python run.py', cwd=gen, env=env)
         last = o.strip().splitlines()[-1] if o.strip() else ''
         if not last.startswith('OK'):
             return 'unavailable: ' + last[:160]
-        rc, o = sh(f'timeout 300 coqc -w -notation-overridden -Q {VERIF}/coq Ubx -Q . UbxGen ReqKernels.v', cwd=gen)
+        rc, o = sh(f'timeout 300 coqc -w -notation-overridden -Q {VERIF}/coq Ubx -Q . UbxGen {kern}', cwd=gen)
         if rc: return 'unavailable: generated file does not type-check: ' + o[-160:].replace('\n', ' ')
-        shutil.copy(f'{VERIF}/coq/bridge/BridgeReq.v', gen)
-        rc, o = sh(f'timeout 600 coqc -w -notation-overridden -Q {VERIF}/coq Ubx -Q . UbxGen BridgeReq.v', cwd=gen)
+        shutil.copy(f'{VERIF}/coq/bridge/{bridge}', gen)
+        rc, o = sh(f'timeout 600 coqc -w -notation-overridden -Q {VERIF}/coq Ubx -Q . UbxGen {bridge}', cwd=gen)
         if rc:
             import re
-            m = re.search(r'File "./BridgeReq.v", line (\d+)', o)
+            m = re.search(r'File "./Bridge\w+.v", line (\d+)', o)
             return 'bridge-FAILS' + (f' (line {m.group(1)})' if m else '')
         return 'bridge-holds'
     finally:
@@ -39,5 +44,6 @@ def one(patch):
         shutil.rmtree(gen, ignore_errors=True)
 
 if __name__ == '__main__':
-    for p in sys.argv[1:]:
-        print(p, '->', one(os.path.abspath(p)), flush=True)
+    scan = '--scan' in sys.argv
+    for p in [a for a in sys.argv[1:] if a != '--scan']:
+        print(p, '->', one(os.path.abspath(p), scan), flush=True)
